@@ -63,3 +63,13 @@ func VerifCounts() (keys, sess int) {
 	sessionsLock.Unlock()
 	return
 }
+
+// VerifWrapConfiguredAPIKeys replaces the getter through which updateAPIKeys reads the core/apiKeys
+// option by wrap(getter) and returns a function that restores the previous getter. The wrapper may
+// block: that parks an import at the instant it has read the configuration (a yield point between
+// "read the option" and whatever the import does next). Call it only while no import is running.
+func VerifWrapConfiguredAPIKeys(wrap func(get func() []string) func() []string) (restore func()) {
+	prev := configuredAPIKeys
+	configuredAPIKeys = wrap(prev)
+	return func() { configuredAPIKeys = prev }
+}
